@@ -165,6 +165,24 @@ def native_run(pkgdir, names, items, timeout):
         return 124, o + "\nVERIF-REPLAY-TIMEOUT"
 
 
+_CRASH_CACHE = {}
+
+
+def crash_native(script, assertion):
+    """real crash replay: the real code in a child process killed by strace at each of its write/ftruncate calls."""
+    if script not in _CRASH_CACHE:
+        p = subprocess.run([sys.executable, os.path.join(VERIF, script)], env=GOENV, stdout=subprocess.PIPE, stderr=subprocess.STDOUT, text=True)
+        _CRASH_CACHE[script] = p.stdout
+    out = _CRASH_CACHE[script]
+    if "RESULT reproduced=true" in out:
+        return "assert:" + assertion, out
+    if "RESULT reproduced=false" in out:
+        return "not-reproduced", out
+    if "RESULT reproduced=unavailable" in out:
+        return "not-replayed", out
+    return "replay-error", out
+
+
 def classify(rc, out):
     if "[build failed]" in out or "[setup failed]" in out:
         return "build-failed"
@@ -200,6 +218,7 @@ def main():
     evidence_path = os.path.join(VERIF, "evidence", pid + ".json")
     os.makedirs(os.path.dirname(evidence_path), exist_ok=True)
     inconclusive, violations, known_lines = [], [], []
+    known_native = []
     try:
         out = os.path.join(tmp, "result.json")
         tcfg = dict(cfg.get("common", {}), **cfg.get(tier, {}))
@@ -259,6 +278,11 @@ def main():
                 if not (h.get("covers") or {}).get(c):
                     inconclusive.append("%s: cover point %s not reached (vacuous harness?)" % (h["harness"], c))
             for kh in h.get("known_hits") or []:
+                if h["harness"] in cfg.get("crash_native", {}):
+                    cl, outp = crash_native(cfg["crash_native"][h["harness"]], kh["assertion"])
+                    known_native.append({"harness": h["harness"], "assertion": kh["assertion"], "native": cl, "output": outp[-800:]})
+                    if cl == "not-reproduced":
+                        inconclusive.append("%s/%s: listed known finding did not reproduce natively (%s)" % (h["harness"], kh["assertion"], cl))
                 for tag in kh["tags"]:
                     what = next((k["what"] for k in known if k.get("harness") == h["harness"] and k.get("tag") == tag), "")
                     known_lines.append("KNOWN-FINDING: property=%s %s/%s [%s]: %s" % (pid, h["harness"], kh["assertion"], tag, what))
@@ -268,7 +292,10 @@ def main():
                 d = find_harness_dir(h["harness"])
                 rec = dict(v, property=pid, tier=tier)
                 json.dump(rec, open(f, "w"), indent=1)
-                if h["harness"] in cfg.get("no_native", []):
+                if h["harness"] in cfg.get("crash_native", {}):
+                    cl, outp = crash_native(cfg["crash_native"][h["harness"]], v["assertion"])
+                    rec["native_output_tail"] = outp[-1500:]
+                elif h["harness"] in cfg.get("no_native", []):
                     cl = "not-replayed"
                 else:
                     rc, outp = native_run(d, [x["harness"] for x in by_pkg[d]], [(h["harness"], f)], tcfg.get("replay_timeout", 40))
@@ -324,6 +351,7 @@ def main():
                 "oneshot_fallbacks": res.get("solver_oneshot_fallbacks", 0),
                 "stubs_used": res.get("stubs_used") or [],
                 "known_findings_hit": known_lines,
+                "known_findings_native_replay": known_native,
                 "counterexamples": [{"harness": a, "assertion": b, "native_replay": c, "file": d} for a, b, c, d in replayed],
                 "witness_replays": {"run": nwit, "passed": nwit_ok},
                 "inconclusive": inconclusive,
